@@ -82,4 +82,10 @@ def sign1Verify (sigAlgs : List (Int × Nat)) (prot : List (Val × AnyVal)) (pay
           | .other => .reject
       | some _ => .reject                          -- alg header is not an integer
 
+/-- payload schema `P` out of the schema of `Sign1Tag/Mac0Tag[P, A]` -/
+def payloadSchemaOf : Schema → Option Schema
+  | .tagNum _ (.struct (.hdr (.cons (.ptr (.wrap p)) _ _))) => some p
+  | .tagNum _ (.struct (.hdr (.cons (.ptr .wrapBytes) _ _))) => some .bytes
+  | _ => none
+
 end Fdo.Cose
